@@ -102,6 +102,18 @@ func (c *fsClient) validateFromUpToDate(x *Exec, st *State, pos token.Pos) {
 	}
 	lenOK := st.truth(tEq(lenTerm(ln), lenTerm(cur))) == 1
 	allOK := false
+	// lists built as the image of the current stack (tableNames()-style helpers)
+	images := map[string]*Term{}
+	for k, cl := range st.mem {
+		if strings.HasPrefix(k, "famsrc:") && cl.val == cur {
+			images[cl.addr.key] = cl.addr
+		}
+	}
+	for _, img := range images {
+		if st.truth(tEq(lenTerm(ln), lenTerm(img))) == 1 || st.truth(tEq(lenTerm(img), lenTerm(ln))) == 1 {
+			lenOK = true
+		}
+	}
 	for _, k := range sortedFactKeys(st) {
 		v := st.facts[k]
 		_ = v
@@ -113,6 +125,21 @@ func (c *fsClient) validateFromUpToDate(x *Exec, st *State, pos token.Pos) {
 		for i := 0; i < 2; i++ {
 			if a.Op == "len" && b.Op == "len" && a.Args[0] == ln && b.Args[0] == cur {
 				lenOK = true
+			}
+			// an element of an image of the stack compared with the list entry at the same position
+			if a.Op == "draw" && a.Args[1].containsOp("loopall") {
+				for _, img := range images {
+					for _, im := range listMembers(img) {
+						if a.Args[0] != im {
+							continue
+						}
+						for _, m := range listMembers(ln) {
+							if m == b || (b.Op == "draw" && b.Args[0] == m && b.Args[1] == a.Args[1]) || (m.Op == "anyelem" && b.Op == "elem" && b.Args[0] == m.Args[0] && b.Args[1] == a.Args[1]) {
+								allOK = true
+							}
+						}
+					}
+				}
 			}
 			if e, ok := stackElemOfName(a); ok && e.Args[0] == cur && e.Args[1].containsOp("loopall") {
 				for _, m := range listMembers(ln) {
